@@ -43,6 +43,8 @@ struct Slots {
 template <typename C>
 C* Slots<C>::obj[VF_MAXTASKS];
 
+static int g_scheduled, g_executed, g_stored, g_waits, g_depth, g_applications;
+
 struct MockTaskSet {
   bool pending[VF_MAXTASKS];
   void (*runSlot)(int) = nullptr;  // Slots<C>::run of the (single) closure type scheduled on this set
@@ -56,15 +58,22 @@ struct MockTaskSet {
   uint8_t chOrder[VF_MAXTASKS];  // wait(): which pending task runs in round r
   uint8_t chDeepAt;              // VF_DEEP: pick-up before the chDeepAt-th element application ...
   uint8_t chDeepWhich;           // ... of this stored task
-  // ghost
-  int scheduled = 0;  // closures handed to the set
-  int executed = 0;   // closures run to completion
-  int stored = 0;     // closures that were queued rather than run inline
-  int waits = 0;      // wait() calls
-  int depth = 0;      // nesting of task execution
-  int applications = 0;
+  // ghost (separate objects rather than adjacent members: the compiler turns the zeroing of adjacent
+  // members into one memset, which the symbolic executor applies byte-wise to the whole struct)
+  int& scheduled = g_scheduled;        // closures handed to the set
+  int& executed = g_executed;          // closures run to completion
+  int& stored = g_stored;              // closures that were queued rather than run inline
+  int& waits = g_waits;                // wait() calls
+  int& depth = g_depth;                // nesting of task execution
+  int& applications = g_applications;  // element applications so far (VF_DEEP)
 
   explicit MockTaskSet(ssize_t n) : nthreads(n) {
+    scheduled = 0;
+    executed = 0;
+    stored = 0;
+    waits = 0;
+    depth = 0;
+    applications = 0;
     for (int i = 0; i < VF_MAXTASKS; ++i) {
       pending[i] = false;
       chInline[i] = vf_nondet_bool();
